@@ -512,10 +512,315 @@ Definition bulk_ops (reads : list rd) : list op :=
 Definition bulk_ops_early_put (reads : list rd) : list op :=
   OGet RB :: OGet EB :: loop_ops true reads [].
 
+(* ---- which = 9: the request ROUTE in front of serveBulk (http.go ServeHTTP / auth / serveBulk's method check, and
+   elasticsearch.go): CORS headers, OPTIONS, authentication (disabled / basic / bearer, header override), meta templates,
+   emulate mode (no / elasticsearch with its non-bulk paths).  The property's clauses are about requests that are
+   INGESTED; this sub-model says which requests are (and that nothing else ever hands an event to the pipeline), and
+   that for an ingested request none of the options changes what serve_bulk does with the body.
+   case = (cfg (request ...)), all requests run one after another on one plugin configured by cfg:
+     cfg     = (mode strat #hdr ((#name #secret) ...) (#origin-pattern ...) hdrs meta)
+               mode 0 = no emulation, 1 = elasticsearch; strat 0 = disabled, 1 = basic, 2 = bearer; #hdr = auth.header;
+               hdrs = 1: cors.allowed_headers / exposed_headers are configured; meta = 1: meta templates are configured
+     request = (method #path #hsel cred #origin ((#cf v) (#xff v) (#xreal v) (#remote v)) #q gz (read ...))
+               method 0 POST | 1 GET | 2 OPTIONS | 3 PUT | 4 DELETE;  #hsel = the header that carries the credentials;
+               cred = 0 | (1 #user #pass) -> "Basic " b64(user:pass) | (2 #token) -> "Bearer " token | (3 #raw);
+               the ip candidates with v = whether net.ParseIP accepts the text (for RemoteAddr: its part before the
+               first ':'), checked by the harness as an oracle; #q = value of the query argument q ("" = none)
+     obs     = (((event ...) status class #allow-origin (meta ...)) ...)
+               class = which canned body a 200 carried: 0 none | 1 bulk result | 2 info | 3 xpack | 4 license | 5 {}
+               meta  = () or (#login #ip #q-rendered): the meta handed over with the events of the request         *)
+Definition S_BEARER : bytes := [66;101;97;114;101;114;32]%N.   (* "Bearer " *)
+Definition S_BASIC_L : bytes := [98;97;115;105;99;32]%N.        (* "basic " *)
+Definition P_BULK : bytes := [47;95;98;117;108;107]%N.          (* "/_bulk" *)
+Definition P_ROOT : bytes := [47]%N.                            (* "/" *)
+Definition P_XPACK : bytes := [47;95;120;112;97;99;107]%N.      (* "/_xpack" *)
+Definition P_LICENSE : bytes := [47;95;108;105;99;101;110;115;101]%N.   (* "/_license" *)
+Definition P_ILM : bytes := [47;95;105;108;109;47;112;111;108;105;99;121]%N.   (* "/_ilm/policy" *)
+Definition P_IDXT : bytes := [47;95;105;110;100;101;120;95;116;101;109;112;108;97;116;101]%N.   (* "/_index_template" *)
+Definition P_TMPL : bytes := [47;95;116;101;109;112;108;97;116;101]%N.   (* "/_template" *)
+Definition P_INGEST : bytes := [47;95;105;110;103;101;115;116]%N.   (* "/_ingest" *)
+Definition P_NODES : bytes := [47;95;110;111;100;101;115]%N.    (* "/_nodes" *)
+Definition S_NIL : bytes := [60;110;105;108;62]%N.              (* "<nil>" *)
+Definition S_STAR : bytes := [42]%N.                            (* "*" *)
+
+Fixpoint is_prefix (p l : bytes) : bool :=
+  match p, l with
+  | [], _ => true
+  | x :: p', y :: l' => N.eqb x y && is_prefix p' l'
+  | _ :: _, [] => false
+  end.
+Definition is_suffix (s l : bytes) : bool := is_prefix (rev_fast s) (rev_fast l).
+Definition is_nil {A} (l : list A) : bool := match l with [] => true | _ :: _ => false end.
+
+Inductive cred := CNone | CBasic (u p : bytes) | CBearer (t : bytes) | CRaw (v : bytes).
+Record rcfg := mkCfg { c_mode : Z; c_strat : Z; c_hdr : bytes; c_secrets : list (bytes * bytes);
+                       c_origins : list bytes; c_meta : bool }.
+Record ipc := mkIp { ip_text : bytes; ip_valid : bool }.
+Record rreq := mkReq { q_method : Z; q_path : bytes; q_hsel : bytes; q_cred : cred; q_origin : bytes;
+                       q_cf : ipc; q_xff : ipc; q_xreal : ipc; q_remote : ipc; q_q : bytes; q_gz : bool;
+                       q_reads : list rd }.
+
+(* Secrets[user] / nameByBearerToken[token] *)
+Fixpoint lookup (k : bytes) (l : list (bytes * bytes)) : option bytes :=
+  match l with
+  | [] => None
+  | (a, b) :: r => if N_eqb_list a k then Some b else lookup k r
+  end.
+Fixpoint rlookup (v : bytes) (l : list (bytes * bytes)) : option bytes :=
+  match l with
+  | [] => None
+  | (a, b) :: r => if N_eqb_list b v then Some a else rlookup v r
+  end.
+
+(* what sits in the header named auth.header (authBasic copies exactly that header over Authorization first) *)
+Definition eff_cred (c : rcfg) (q : rreq) : cred := if N_eqb_list (q_hsel q) (c_hdr c) then q_cred q else CNone.
+
+Definition bearer_token (cr : cred) : option bytes :=
+  match cr with
+  | CBearer t => Some t
+  | CRaw v => if is_prefix S_BEARER v then Some (skipn 7 v) else None
+  | _ => None
+  end.
+
+(* auth (http.go:605-647).  AuthPanic: basic strategy, a user that is not configured and an empty password:
+   Secrets[user] = "" = password makes authBasic say yes, and the success counter of that user does not exist
+   (nil *metric.Counter): the handler panics before anything is read; net/http recovers it and drops the connection *)
+Inductive auth_res := AuthOk (login : bytes) | AuthFail | AuthPanic.
+Definition auth (c : rcfg) (q : rreq) : auth_res :=
+  if Z.eqb (c_strat c) 0 then AuthOk []
+  else if Z.eqb (c_strat c) 1 then
+    match eff_cred c q with
+    | CBasic u p =>
+        match lookup u (c_secrets c) with
+        | Some s => if N_eqb_list s p then AuthOk u else AuthFail
+        | None => match p with [] => AuthPanic | _ :: _ => AuthFail end
+        end
+    | _ => AuthFail
+    end
+  else
+    match bearer_token (eff_cred c q) with
+    | Some t => match rlookup t (c_secrets c) with Some n => AuthOk n | None => AuthFail end
+    | None => AuthFail
+    end.
+Definition auth_ok (a : auth_res) : bool := match a with AuthOk _ => true | _ => false end.
+
+(* the specification of "this request presents a configured secret", independent of [auth] *)
+Definition authorised (c : rcfg) (q : rreq) : bool :=
+  if Z.eqb (c_strat c) 0 then true
+  else if Z.eqb (c_strat c) 1 then
+    match eff_cred c q with
+    | CBasic u p => existsb (fun np => N_eqb_list (fst np) u && N_eqb_list (snd np) p) (c_secrets c)
+    | _ => false
+    end
+  else
+    match bearer_token (eff_cred c q) with
+    | Some t => existsb (fun np => N_eqb_list (snd np) t) (c_secrets c)
+    | None => false
+    end.
+
+Definition bulk_route (c : rcfg) (q : rreq) : bool := Z.eqb (c_mode c) 0 || N_eqb_list (q_path q) P_BULK.
+
+(* elasticsearch.go / http.go:442-479: the paths that are answered without reading the body *)
+Definition es_class (q : rreq) : Z :=
+  if N_eqb_list (q_path q) P_ROOT then (if Z.eqb (q_method q) 1 then 2 else 0)
+  else if N_eqb_list (q_path q) P_XPACK then 3
+  else if N_eqb_list (q_path q) P_LICENSE then 4
+  else if existsb (fun p => is_prefix p (q_path q)) [P_ILM; P_IDXT; P_TMPL; P_INGEST; P_NODES] then 5
+  else 0.
+
+(* the request is handed to processBulk *)
+Definition ingests (c : rcfg) (q : rreq) : bool :=
+  negb (Z.eqb (q_method q) 2) && auth_ok (auth c q) && bulk_route c q && Z.eqb (q_method q) 0.
+
+(* ServeHTTP: (events, status, class) *)
+Definition route (c : rcfg) (q : rreq) : list bytes * Z * Z :=
+  if Z.eqb (q_method q) 2 then ([], 200, 0)
+  else match auth c q with
+       | AuthPanic => ([], -1, 0)
+       | AuthFail => ([], 401, 0)
+       | AuthOk _ =>
+           if bulk_route c q then
+             if Z.eqb (q_method q) 0
+             then let '(evs, st) := serve_bulk (q_reads q) in (evs, st, if Z.eqb st 200 then 1 else 0)
+             else ([], 405, 0)
+           else ([], 200, es_class q)
+       end.
+
+(* CORS (http.go:223-265): patterns are lower-cased at start-up (the glue only accepts lower-case ones), "*" alone
+   allows everything, one '*' inside a pattern = prefix + suffix match of a strictly longer origin *)
+Fixpoint split_star (ao : bytes) : option (bytes * bytes) :=
+  match ao with
+  | [] => None
+  | ch :: r =>
+      if N.eqb ch 42 then Some ([], r)
+      else match split_star r with Some (pre, suf) => Some (ch :: pre, suf) | None => None end
+  end.
+Definition origin_match (origin ao : bytes) : bool :=
+  match split_star ao with
+  | None => negb (is_nil ao) && N_eqb_list origin ao
+  | Some (pre, suf) =>
+      let ps := (length pre + length suf)%nat in
+      Nat.ltb 0 ps && Nat.ltb ps (length origin) && is_prefix pre origin && is_suffix suf origin
+  end.
+Definition allow_origin (c : rcfg) (origin : bytes) : bytes :=
+  if existsb (N_eqb_list S_STAR) (c_origins c) then origin
+  else if existsb (origin_match origin) (c_origins c) then origin
+  else S_STAR.
+
+(* getUserIP (http.go:664-680) + "{{ .remote_addr }}" *)
+Fixpoint before_colon (l : bytes) : bytes :=
+  match l with [] => [] | ch :: r => if N.eqb ch 58 then [] else ch :: before_colon r end.
+Definition pick_ip (q : rreq) : bytes :=
+  let show := fun (t : bytes) (v : bool) => if v then t else S_NIL in
+  if negb (is_nil (ip_text (q_cf q))) then show (ip_text (q_cf q)) (ip_valid (q_cf q))
+  else if negb (is_nil (ip_text (q_xff q))) then show (ip_text (q_xff q)) (ip_valid (q_xff q))
+  else if negb (is_nil (ip_text (q_xreal q))) then show (ip_text (q_xreal q)) (ip_valid (q_xreal q))
+  else show (before_colon (ip_text (q_remote q))) (ip_valid (q_remote q)).
+
+Definition route_meta (c : rcfg) (q : rreq) (evs : list bytes) : list sx :=
+  if c_meta c && negb (is_nil evs)
+  then match auth c q with
+       | AuthOk login => [SB login; SB (pick_ip q); SB (91%N :: q_q q ++ [93%N])]
+       | _ => []
+       end
+  else [].
+
+(* glue *)
+Definition cred_of_sx (s : sx) : option cred :=
+  match s with
+  | SZ 0 => Some CNone
+  | SL [SZ 1; SB u; SB p] => Some (CBasic u p)
+  | SL [SZ 2; SB t] => Some (CBearer t)
+  | SL [SZ 3; SB v] => Some (CRaw v)
+  | _ => None
+  end.
+Definition pair_of_sx (s : sx) : option (bytes * bytes) :=
+  match s with SL [SB a; SB b] => Some (a, b) | _ => None end.
+Definition ipc_of_sx (s : sx) : option ipc :=
+  match s with SL [SB t; SZ 0] => Some (mkIp t false) | SL [SB t; SZ 1] => Some (mkIp t true) | _ => None end.
+Definition cfg_of_sx (s : sx) : option rcfg :=
+  match s with
+  | SL [SZ mode; SZ strat; SB hdr; secrets; origins; SZ hdrs; SZ meta] =>
+      match as_list pair_of_sx secrets, as_list as_B origins with
+      | Some sec, Some ors =>
+          if (Z.eqb mode 0 || Z.eqb mode 1) && (Z.eqb strat 0 || Z.eqb strat 1 || Z.eqb strat 2)
+             && (Z.eqb hdrs 0 || Z.eqb hdrs 1) && (Z.eqb meta 0 || Z.eqb meta 1)
+          then Some (mkCfg mode strat hdr sec ors (Z.eqb meta 1)) else None
+      | _, _ => None
+      end
+  | _ => None
+  end.
+Definition req_of_sx (s : sx) : option (rreq * sx) :=
+  match s with
+  | SL [SZ m; SB path; SB hsel; cr; SB origin; SL [cf; xff; xreal; remote]; SB qv; SZ gz; reads] =>
+      match cred_of_sx cr, ipc_of_sx cf, ipc_of_sx xff, ipc_of_sx xreal, ipc_of_sx remote, as_list rd_of_sx reads with
+      | Some cr', Some a, Some b, Some c', Some d, Some rds =>
+          if Z.leb 0 m && Z.leb m 4 && gated_reads_ok gz reads
+          then Some (mkReq m path hsel cr' origin a b c' d qv (Z.eqb gz 1) rds, reads) else None
+      | _, _, _, _, _, _ => None
+      end
+  | _ => None
+  end.
+
+(* what the glue rejects (the harness never generates it): a second '*' in an origin pattern (Fatal at start-up),
+   upper-case patterns (ToLower is outside the model), two secrets with one name / one value (Go map), a ':' in a basic
+   user name (it would end the name), a raw header that net/http would parse as basic credentials *)
+Fixpoint distinct (l : list bytes) : bool :=
+  match l with [] => true | x :: r => negb (existsb (N_eqb_list x) r) && distinct r end.
+Definition lower_b (ch : byte) : byte := if N.leb 65 ch && N.leb ch 90 then (ch + 32)%N else ch.
+Definition pattern_ok (ao : bytes) : bool :=
+  forallb (fun ch => negb (N.leb 65 ch && N.leb ch 90)) ao &&
+  match split_star ao with Some (_, suf) => negb (existsb (N.eqb 42) suf) | None => true end.
+Definition cfg_ok (c : rcfg) : bool :=
+  distinct (map fst (c_secrets c)) && distinct (map snd (c_secrets c)) && forallb pattern_ok (c_origins c).
+Definition cred_ok (cr : cred) : bool :=
+  match cr with
+  | CBasic u _ => negb (existsb (N.eqb 58) u)
+  | CRaw v => negb (N_eqb_list (map lower_b (firstn 6 v)) S_BASIC_L)
+  | _ => true
+  end.
+
+Definition route_one (c : rcfg) (r o : sx) : option (sx * bool) :=
+  match req_of_sx r with
+  | Some (q, reads) =>
+      if cred_ok (q_cred q) then
+        let '(evs, st, cl) := route c q in
+        let m := SL [SL (map SB evs); SZ st; SZ cl; SB (allow_origin c (q_origin q)); SL (route_meta c q evs)] in
+        let ok := match o with
+                  | SL [SL oevs; SZ ost; _; _; _] =>
+                      if ingests c q then c11_pred reads (SL [SL oevs; SZ ost])
+                      else is_nil oevs && (authorised c q || Z.eqb (q_method q) 2 || negb (Z.eqb ost 200))
+                  | _ => false
+                  end in
+        Some (m, ok)
+      else None
+  | None => None
+  end.
+
+Definition c11_route_run (case obs : sx) : verdict :=
+  match case with
+  | SL [cfg; reqs] =>
+      match cfg_of_sx cfg with
+      | Some c => if cfg_ok c then pairs_run (route_one c) reqs obs else BadCase
+      | None => BadCase
+      end
+  | _ => BadCase
+  end.
+
+(* ---- which = 10: requests sent over a REAL connection to the plugin's own listener (Start -> listenHTTP, plain or TLS):
+   case = ((int ...) (request ...)), request = (gz piece (#write ...)): the client sends the body in the given writes
+   (chunked transfer encoding, one HTTP chunk per write, or Content-Length framing; gz = 1: the gzip of the whole body in
+   pieces of [piece] bytes).  How the transport hands the bytes to processBulk is not under the harness' control and,
+   by the chunking theorem, cannot matter: every request behaves as c11_model of its writes.  Several requests of a case
+   are sent concurrently over connections of their own.                                                              *)
+Definition all_bytes (l : list sx) : bool := forallb (fun r => match r with SB _ => true | _ => false end) l.
+Definition wire_one (r o : sx) : option (sx * bool) :=
+  match r with
+  | SL [SZ gz; SZ _; SL ws] =>
+      if (Z.eqb gz 0 || Z.eqb gz 1) && all_bytes ws then fault_exact (SL ws) o else None
+  | _ => None
+  end.
+Definition c11_wire_run (case obs : sx) : verdict :=
+  match case with
+  | SL [SL cfg; reqs] => if all_ints cfg then pairs_run wire_one reqs obs else BadCase
+  | _ => BadCase
+  end.
+
+(* ---- which = 11: Stop() while a request is in flight on the plugin's own listener.  case = (gz park abort (#write ...)):
+   the request is parked inside controller.In at its park-th event (if it has that many), Stop is called, then the
+   request is released.  abort = 1: the client has closed the connection before the end of the body (a read error on
+   the real transport).  obs = ((event ...) status early refused): early = 1 iff Stop returned while the request was
+   still parked, refused = 1 iff the address no longer accepts connections after Stop.
+   abort = 0: the request is completed and answered as if nothing happened; abort = 1: no answer (status 0), what was
+   handed over is a prefix of the complete lines of what was sent.  In both cases Stop waits for the request.        *)
+Definition c11_stop_run (case obs : sx) : verdict :=
+  match case, obs with
+  | SL [SZ gz; SZ park; SZ abort; SL ws], SL [SL evs; SZ st; SZ early; SZ refused] =>
+      if (Z.eqb gz 0 || Z.eqb gz 1) && (Z.eqb abort 0 || Z.eqb abort 1) && all_bytes ws then
+        let flags := Z.eqb early 0 && Z.eqb refused 1 in
+        if Z.eqb abort 0 then
+          match c11_model (SL ws) with
+          | Some (SL [mevs; mst]) =>
+              let m := SL [mevs; mst; SZ 0; SZ 1] in
+              if c11_pred (SL ws) (SL [SL evs; SZ st]) && flags
+              then (if sx_eqb m obs then Agree else Differ m) else Violates m
+          | _ => BadCase
+          end
+        else
+          let body := concat (flat_map (fun w => match w with SB b => [b] | _ => [] end) ws) in
+          let m := SL [SL evs; SZ 0; SZ 0; SZ 1] in
+          if sx_prefix evs (map SB (fst (lines_tail body))) && negb (Z.eqb st 200) && flags
+          then (if sx_eqb m obs then Agree else Differ m)
+          else Violates (SL [SL []; SZ 0; SZ 0; SZ 1])
+      else BadCase
+  | _, _ => BadCase
+  end.
+
 (* entry point of the model runner (extracted, and evaluated by vm_compute in the cross-check):
    0 / 2 = one request (plain / gzip), 1 = source-id pool, 3 = concurrent requests, 4 = gzip request history,
    5 = one request with reads that return data together with an error, 6 = gzip histories with failing bodies,
-   7 = phases of concurrent requests on one plugin *)
+   7 = phases of concurrent requests on one plugin, 8 = gated histories, 9 = routed requests (auth / CORS / meta /
+   emulate mode), 10 = requests over the plugin's own listener, 11 = Stop with a request in flight *)
 Definition c11_entry (which : Z) (case obs : sx) : verdict :=
   match which with
   | 0 | 2 => c11_run case obs
@@ -525,6 +830,9 @@ Definition c11_entry (which : Z) (case obs : sx) : verdict :=
   | 6 => c11_fault_run case obs
   | 7 => c11_phases_run case obs
   | 8 => c11_gated_run case obs
+  | 9 => c11_route_run case obs
+  | 10 => c11_wire_run case obs
+  | 11 => c11_stop_run case obs
   | _ => match c11_id_model case with
          | Some m => exact_verdict m obs
          | None => BadCase
